@@ -200,7 +200,7 @@ inline bool Goldilocks::toS32(int32_t &result, const Element &in1)
     if (out > maxInt)
     {
         mpz_class onegative = (uint64_t)GOLDILOCKS_PRIME - out;
-        if (out > minInt)
+        if (out >= minInt)
         {
             result = -onegative.get_si();
         }
